@@ -524,7 +524,7 @@ def _run_scheduler_body(sc, trace, ts, learner, rb, mix, events):
 # ------------------------------------------------------------ trace validation
 LEN_SCRIPTS = [[1], [2], [3], [1, 2], [2, 3, 1], [3, 1], [2, 2, 1], [4]]
 RET_AMT = [[1.0], [0.5], [0.0, 1.0], [0.25, 0.5, 1.0], [-0.5, 0.5], [1.0, 0.0]]
-RET_SMT = [[6.0], [-6.0], [0.0], [-6.0, 6.0], [0.0, 6.0, 6.0], [6.0, -6.0], [-6.0, -6.0, 0.0]]
+RET_SMT = [[6.0], [-6.0], [0.0], [-6.0, 6.0], [0.0, 6.0, 6.0], [6.0, -6.0], [-6.0, -6.0, 0.0], [1.0], [-1.0]]  # +-1 = the thresholds
 
 
 def scenarios(seed, quick):
